@@ -378,7 +378,19 @@ func runC03(c *Ctx) {
 				cl = cl[:i]
 			}
 			r.hist("model_end_" + cl)
-			if res.Final == "complete" && end != "finished" && end != "done" {
+			// the decidable hypotheses of failure_free_run_completes_exactly_once, evaluated by the driver on
+			// this very history: the graph is topologically numbered (⇒ Acyclic), every event is failure-free
+			for _, hyp := range []string{"topo", "ff"} {
+				v := schedHypNote(detail, hyp)
+				r.hist("hyp_" + hyp + "_" + v)
+				if v == "no" {
+					r.violate(Violation{Kind: "correspondence", Key: "C03:hypothesis-fails-on-real-run:" + hyp,
+						What:   "a hypothesis of failure_free_run_completes_exactly_once (" + hyp + ") does not hold on the history of a real failure-free run: " + detail,
+						Input:  map[string]interface{}{"program": src, "spec": cs.spec.Name, "seed": cs.spec.Seed, "trace": res.Trace},
+						Broken: "hypotheses of Props.C03.failure_free_run_completes_exactly_once hold on real failure-free runs"})
+				}
+			}
+			if res.Final == "complete" && end != "finished" {
 				r.violate(Violation{Kind: "correspondence", Key: "C03:model-not-finished:" + cl,
 					What:   "the real pipestance completed but the model's end state is not finished: " + detail,
 					Input:  map[string]interface{}{"program": src, "spec": cs.spec.Name, "seed": cs.spec.Seed, "trace": res.Trace},
